@@ -33,6 +33,12 @@ Three streams through the real `trackpy.refine.least_squares`:
               fail are marked; fitted features within the mask radius of THEIR OWN start, signal /
               size / background positive; with default settings on these noise-free frames the
               centres are recovered to < 0.1 px.
+              X15 (also in the accuracy stream when nframes > 1): `prepare_subimages` is wrapped at run
+              time (arguments bound by name, passed through; the `reader` argument replaced by a
+              recording proxy): per call, the indices asked of the reader must equal the model's
+              `framesRead frame_nos groups` (op LSQFRAMES: one per cluster, the frame of its first
+              member), and the sequence of solver calls must follow the model's `plan` built from the
+              returned table's frame / cluster columns (correspondence-break, what="frames-read").
   * history : the result of a call is a function of its arguments: the reference call is made first,
               then 2-5 OTHER calls in the same process (options={'maxiter': 1}, tol, other
               fit_function / param_mode / bounds / constraints / param_val / max_iter, a call that
@@ -76,6 +82,10 @@ ASSUMPTIONS = [
     "float64 by the code; injected jumps keep it >= 1e-3 away from equality",
     "clusters (static.cluster) are taken from the code (C19's subject); index labels unique except "
     "in the 'dup' layout, which is judged by the direct oracle only",
+    "X15 frames-read tie: a prepare_subimages call that raises (cluster outside the image) must have read "
+    "a non-empty PREFIX of the model's frames; clusters that fail before their first round make no call, so "
+    "the recorded solver calls must be a SUBSEQUENCE of the model's plan (equal to it when every row was "
+    "fitted); frame numbers are integers",
     "at least one parameter is not constant (with an empty parameter vector scipy raises ValueError "
     "before any fit is attempted; like max_iter = 0 this is a degenerate configuration, not a failed fit)",
     "max_iter >= 1 (max_iter = 0 raises UnboundLocalError in the code and `unboundRmsDev` in the "
